@@ -105,6 +105,6 @@ MUTANTS.update({
  # negative controls (behaviourally equivalent)
  "eq_limiter_size_lt0": dict(equivalent=True, checks=["C10", "C19", "C09"], edits=[(U, "        if size <= 0:\n            return None\n        block = self._audio_source.read(size)", "        if size < 0 or size == 0:\n            return None\n        block = self._audio_source.read(size)")]),
  "eq_to_array_reshape": dict(equivalent=True, checks=["C07", "C18"], edits=[(S, '    return array.reshape(channels, -1, order="F")', "    return array.reshape(-1, channels).T")]),
- "eq_close_before_stop": dict(equivalent=True, checks=["C12", "C13", "C14"], edits=[(W,
+ "eq_close_before_stop": dict(equivalent=False, checks=["C12", "C13", "C14"], edits=[(W,
    "        self._notify_observers(_STOP_PROCESSING)\n        self._reader.close()", "        self._reader.close()\n        self._notify_observers(_STOP_PROCESSING)")]),
 })
